@@ -3,24 +3,25 @@
    topological sort), model/GraphSem.v (denotational semantics over Qc), operator tables and the
    dead-code-elimination removal mode REGENERATED from the working tree (gen/Gen_opcodes.v).
 
-   Proved here, for all inputs: the constructor shortcuts (ctor_shortcuts_sound), the algebra of
-   every optimiser rewrite (rewrite_sound_algebra), the operator numbering
-   (opcode_table_matches_server), rate inference (op_rate_is_max_input_rate), the guards of dead code
-   elimination (dce_only_pure_unreferenced_partial), and that the F10 family compiles on the current
-   tree (every_wellformed_prog_compiles_partial).
-   NOT proved (fall-back of DESIGN.md section 5/C01): the maintained-descendants invariant desc_inv
-   through the optimiser pass and the composition
+   Proved here, for all inputs / all programs of the model's language: the constructor shortcuts
+   (ctor_shortcuts_sound), the algebra of every optimiser rewrite (rewrite_sound_algebra) and its
+   graph-level form (rewrite_sound), the operator numbering (opcode_table_matches_server), rate inference
+   (op_rate_is_max_input_rate), dead code elimination (dce_only_pure_unreferenced_partial: the guards;
+   dce_only_pure_unreferenced: what is missing from the emitted graph), the maintained-descendants
+   invariant through construction and every step of the optimiser (desc_inv_preserved), the topological
+   sort (topo_sort_correct), totality (every_wellformed_prog_compiles), that effectful units are emitted
+   exactly once (effectful_exactly_once) and the composition
 
-     compile_preserves_meaning : forall p, wf p -> exists g, compile T dce_strict p = Ok g /\
-         forall I, obs_match (obs_src T I p) (obs_graph I g) = true.
+     compile_preserves_meaning : forall p, wellformed p -> exists g, compile ... p = Ok g /\
+         forall I, Permutation (obs_graph I g) (obs_src T I p).
 
-   Both are checked by execution on every correspondence program (Graph.desc_inv_ok after every
-   optimiser step; GraphSem.sem_test under two interpretations) -- a test, not a theorem. *)
+   The executable checkers (Graph.desc_inv_ok after every optimiser step, GraphSem.sem_test under two
+   interpretations) stay in the correspondence: they tie the model to the library. *)
 From Coq Require Import ZArith QArith Qcanon List String Bool Permutation.
 Import ListNotations.
 Require Import SC3.model.Graph SC3.model.GraphSem SC3.gen.Gen_opcodes.
 Require Import SC3.proofs.C01_ctor SC3.proofs.C01_misc.
-Require Import SC3.proofs.C01_inv SC3.proofs.C01_inv2 SC3.proofs.C01_inv3 SC3.proofs.C01_pass SC3.proofs.C01_built SC3.proofs.C01_init SC3.proofs.C01_opt SC3.proofs.C01_topo SC3.proofs.C01_topo2 SC3.proofs.C01_compile.
+Require Import SC3.proofs.C01_inv SC3.proofs.C01_inv2 SC3.proofs.C01_inv3 SC3.proofs.C01_pass SC3.proofs.C01_built SC3.proofs.C01_init SC3.proofs.C01_opt SC3.proofs.C01_topo SC3.proofs.C01_topo2 SC3.proofs.C01_cov SC3.proofs.C01_compile SC3.proofs.C01_sem SC3.proofs.C01_sem2 SC3.proofs.C01_src SC3.proofs.C01_link SC3.proofs.C01_dce.
 Open Scope string_scope.
 
 (* Whatever BinaryOpUGen / MulAdd / Sum3 / Sum4 constructors return for arguments that exist in the
@@ -188,6 +189,74 @@ Proof.
     intros c C x Lc GC Hx. apply B3; auto. unfold SrcOf. rewrite GC. exact Hx.
 Qed.
 
+(* ---------------------------------------------------------------------------------------------
+   Meaning.  A valuation f gives every object a row of values; `Valid I s D f` says that every live unit
+   that is not being eliminated has the value its class computes from the values of its inputs (usem, under
+   the interpretation I of the opaque classes / operators / controls).  `obs_state I s f` lists, in slot
+   order, every effectful unit instance with the values it reads.
+
+   rewrite_sound (graph level): every atomic step of the optimiser -- marking a dead unit, discarding it
+   from a descendant set, removing it, and each of the seven rewrites (Sum3, Sum3 with `a is b`, Sum4,
+   MulAdd in both operand orders, a+(-b), (-a)+b, a-(-b)) with _replace_ugen / _remove_ugen -- maps a valid
+   valuation to a valid valuation that agrees with it on every object that existed before and leaves the
+   observations unchanged, for every interpretation.  The side condition "the absorbed unit has exactly one
+   reader" is not a hypothesis: astep carries `Inv s D` (desc_inv), from which it follows. *)
+Theorem rewrite_sound : forall I x y, astep x y -> forall f, Valid I (fst x) (snd x) f ->
+  exists f', Valid I (fst y) (snd y) f' /\ (forall u, (u < List.length (units (fst x)))%nat -> f' u = f u) /\
+             obs_state I (fst y) f' = obs_state I (fst x) f.
+Proof. exact astep_sem. Qed.
+
+(* compile_preserves_meaning: for every well-formed graph function, SynthDef._build succeeds and, under
+   EVERY interpretation (of the catalogue classes, of the operators outside + - * / neg, of the control
+   values), the effectful unit instances of the emitted graph, each with the values it reads, are those of
+   the source program (a permutation: the topological sort may reorder independent units). *)
+Theorem compile_preserves_meaning : forall p, wellformed p ->
+  exists g, compile C01_built.T dce_strict dce_guard sub_guard p = Ok g /\
+    forall I, Permutation (obs_graph I g) (obs_src C01_built.T I p).
+Proof.
+  intros p (s1 & Hb & Hc). destruct optimiser_is_the_fixed_code as (E1 & E2 & E3). rewrite E1, E2, E3 in *.
+  destruct (compile_preserves_meaning_all p s1 Hb Hc) as (g & ok & E & Hm).
+  exists g. split; auto. unfold compile. rewrite E. reflexivity.
+Qed.
+
+(* effectful_exactly_once: the tags (instruction number + 1) of the effectful units of the emitted graph
+   are, up to order, the tags of the effectful instructions of the source (non-pure catalogue units and
+   Out), and these are pairwise different: each effectful instruction is emitted exactly once, nothing
+   effectful is invented. *)
+Theorem effectful_exactly_once : forall p, wellformed p ->
+  exists g, compile C01_built.T dce_strict dce_guard sub_guard p = Ok g /\
+    Permutation (eff_tags g) (src_eff 0 (p_ins p)) /\ NoDup (src_eff 0 (p_ins p)).
+Proof.
+  intros p (s1 & Hb & Hc). destruct optimiser_is_the_fixed_code as (E1 & E2 & E3). rewrite E1, E2, E3 in *.
+  destruct (compile_total p s1 Hb Hc) as (g & ok & s2f & s3 & s2 & out & E & C).
+  exists g. split; [unfold compile; rewrite E; reflexivity|]. eapply effectful_once; eauto.
+Qed.
+
+(* dce_only_pure_unreferenced: an object the graph function created that is missing from the emitted graph
+   is side-effect free (dead code elimination) or a BinaryOpUGen / UnaryOpUGen / Sum3 that a rewrite merged
+   into its replacement, and no emitted unit reads it. *)
+Theorem dce_only_pure_unreferenced : forall p s1, build_graph C01_built.T p = Ok s1 ->
+  (forall s2 ok, optimize C01_built.T dce_strict dce_guard sub_guard s1 = Ok (s2, ok) -> check_inputs s2 = true) ->
+  exists g ok s2f s3 out,
+    compile_flag C01_built.T dce_strict dce_guard sub_guard p = Ok (g, ok) /\
+    optimize C01_built.T dce_strict dce_guard sub_guard s1 = Ok (s2f, ok) /\ topological_sort s2f = Ok s3 /\
+    children s3 = map Some out /\
+    forall u U, get_unit s1 u = Some U -> ~ In u out ->
+      (pure U = true \/ ukind U = KBin \/ ukind U = KUn \/ ukind U = KSum3) /\
+      forall c C ch, In c out -> get_unit s2f c = Some C -> ~ In (O u ch) (ins C).
+Proof.
+  intros p s1 Hb Hc. destruct optimiser_is_the_fixed_code as (E1 & E2 & E3). rewrite E1, E2, E3 in *.
+  destruct (compile_total p s1 Hb Hc) as (g & ok & s2f & s3 & s2 & out & E & C).
+  destruct (CP_optimize _ _ _ _ _ _ _ C) as [ok' Eo].
+  assert (ok' = ok).
+  { unfold compile_flag in E. rewrite Hb in E. cbn [bind] in E. rewrite Eo in E. cbn [bind] in E.
+    destruct (negb (check_inputs s2f)); [discriminate|]. rewrite (CP_topo _ _ _ _ _ _ _ C) in E. cbn [bind] in E.
+    injection E as _ E. exact E. }
+  subst ok'. exists g, ok, s2f, s3, out. split; auto. split; auto. split; [exact (CP_topo _ _ _ _ _ _ _ C)|].
+  split; [exact (proj1 (CP_sorted _ _ _ _ _ _ _ C))|].
+  intros u U GU Nu. exact (missing_units p s1 s2f s3 s2 out g C u U GU Nu).
+Qed.
+
 (* non-vacuity: the constructors compute, hypotheses are satisfiable *)
 Example shortcut_example :
   let s := match build_graph T (mkP [] [] [IU "Saw" Audio [AC 440]]) with Ok s => s | Err _ => st0 end in
@@ -209,3 +278,7 @@ Print Assumptions every_wellformed_prog_compiles_partial.
 Print Assumptions desc_inv_preserved.
 Print Assumptions every_wellformed_prog_compiles.
 Print Assumptions topo_sort_correct.
+Print Assumptions rewrite_sound.
+Print Assumptions compile_preserves_meaning.
+Print Assumptions effectful_exactly_once.
+Print Assumptions dce_only_pure_unreferenced.
